@@ -140,20 +140,22 @@ def run(tier):
     strings = 0; kinds = collections.Counter(); seen = set()
     for fn in fns:
         cls = (fn.get('cls') or {}).get('s', '').replace(T, '', 1); pol = pol_of(fn)
+        amode = 'apply_mode::action' if (fn.get('ta') or [{}])[0].get('v') else 'apply_mode::nothing'
         probs = []; n = 0; broken = None
         for c in range(nchunks):
             r = res[(fn['u'], c)]
             if r.get('broken'): broken = r['broken']; break
             n += r['n']; probs += r['probs']; parts = r['parts']
         if broken:
-            R.broke('%s over eol::%s: %s' % (cls, pol, broken)); continue
-        strings += n; kinds['variant'] += 1
-        R.ob(ok=not probs, key=(cls, pol))
+            R.broke('%s over eol::%s, %s: %s' % (cls, pol, amode, broken)); continue
+        strings += n; kinds['variant'] += 1; kinds[amode] += 1
+        R.ob(ok=not probs, key=(cls, pol, amode))
         for rule, msg in probs[:6]:
-            R.violation(rule, 'contrib/raw_string.hpp::raw_string::match', '%s over eol::%s: %s' % (cls, pol, msg), {'rule': cls, 'eol': pol}, key=(rule, cls, pol, msg))
-        if not probs and len(R.samples) < 8: R.sample({'rule': cls, 'eol': pol, 'class_strings': n, 'classes': ['%d..%d' % p if p[0] != p[1] else '%d' % p[0] for p in parts]})
+            R.violation(rule, 'contrib/raw_string.hpp::raw_string::match', '%s over eol::%s, %s: %s' % (cls, pol, amode, msg), {'rule': cls, 'eol': pol, 'apply_mode': amode}, key=(rule, cls, pol, amode, msg))
+        if not probs and len(R.samples) < 8: R.sample({'rule': cls, 'eol': pol, 'apply_mode': amode, 'class_strings': n, 'classes': ['%d..%d' % p if p[0] != p[1] else '%d' % p[0] for p in parts]})
     R.cov['class_strings'] = strings; R.cov['max_length'] = maxlen; R.cov['obligations_by_kind'] = dict(kinds)
-    if kinds['variant'] < 20: R.broke('only %d (variant, policy) pairs analysed (floor 20)' % kinds['variant'])
+    if kinds['variant'] < 30: R.broke('only %d (variant, policy, apply mode) triples analysed (floor 30)' % kinds['variant'])
+    if kinds['apply_mode::nothing'] < 10: R.broke('only %d instantiations with actions disabled analysed (floor 10)' % kinds['apply_mode::nothing'])
     R.assumptions = ['the statement is decided for all inputs up to the length bound (every class string stands for all strings with the same pattern of bracket, marker, line-ending and other bytes, followed by the end of input); '
                      'longer inputs add no new code paths: the loops of open / until / close are uniform in the position; the plain variant is explored to length %d, the variants with custom characters and content rules to a shorter bound' % maxlen,
                      'what the action receives is the span of the content rule (C04)']
